@@ -422,3 +422,227 @@ Proof.
   intros [[b c'] st'] E. cbn [HJ fst snd]. eapply handle_setext_post; eassumption.
 Qed.
 End Handlers.
+
+(* ================================================================== open_new_blocks *)
+Lemma or_else_spec o lmc cur0 (r : hres) (k : nat -> pstate -> hres) :
+  safe (HJ o lmc cur0) r -> (forall c s, J o lmc cur0 s c -> safe (HJ o lmc cur0) (k c s)) ->
+  safe (HJ o lmc cur0) (or_else_h r k).
+Proof.
+  intros S K. unfold or_else_h. destruct r as [[[h c] s]| |]; cbn [bind safe] in *; [|exact S | exact I].
+  destruct h; [exact S|]. apply K. exact S.
+Qed.
+
+Lemma open_new_blocks_step_spec o lmc cur0 st c line am ml d :
+  bo_table o = false -> bo_description_lists o = false -> J o lmc cur0 st c ->
+  safe (HJ o lmc cur0) (open_new_blocks_step o st c line am ml d).
+Proof.
+  intros Tb Dl Jc. unfold open_new_blocks_step.
+  eapply sb_eq; [exact Jc | auto with nb | intros s1 E; eapply ffn_eqtree; exact E |]. intros s0 J0.
+  match goal with |- safe _ (bind ?r _) =>
+    assert (S : safe (HJ o lmc cur0) r) end.
+  { apply or_else_spec; [now apply handle_alert_spec|]. intros c1 s1 J1.
+    apply or_else_spec; [now apply handle_mbq_spec|]. clear c1 s1 J1. intros c1 s1 J1.
+    apply or_else_spec; [now apply handle_blockquote_spec|]. clear c1 s1 J1. intros c1 s1 J1.
+    apply or_else_spec; [now apply handle_atx_spec|]. clear c1 s1 J1. intros c1 s1 J1.
+    apply or_else_spec; [now apply handle_code_fence_spec|]. clear c1 s1 J1. intros c1 s1 J1.
+    apply or_else_spec; [now apply handle_html_block_spec|]. clear c1 s1 J1. intros c1 s1 J1.
+    apply or_else_spec; [now apply handle_setext_spec|]. clear c1 s1 J1. intros c1 s1 J1.
+    apply or_else_spec; [now apply handle_thematic_break_spec|]. clear c1 s1 J1. intros c1 s1 J1.
+    apply or_else_spec; [now apply handle_footnote_spec|]. clear c1 s1 J1. intros c1 s1 J1.
+    apply or_else_spec; [now apply handle_description_list_spec|]. clear c1 s1 J1. intros c1 s1 J1.
+    apply or_else_spec; [now apply handle_list_spec|]. clear c1 s1 J1. intros c1 s1 J1.
+    now apply handle_code_block_spec. }
+  apply sbind; [eapply safe_nb; exact S|]. intros [[handled c1] s1] E. pose proof (safe_ok _ _ _ S E) as J1.
+  cbn [HJ fst snd] in J1. rewrite Tb, andb_false_r.
+  destruct handled; cbn [bind negb].
+  - eapply sb_get; [eapply J_has; exact J1|]. intros n G. destruct (accepts_lines (bkind n)); cbn [safe HJ fst snd]; exact J1.
+  - cbn [safe HJ fst snd]. exact J1.
+Qed.
+
+Lemma open_new_blocks_loop_spec o lmc cur0 line am : bo_table o = false -> bo_description_lists o = false ->
+  forall fuel st c ml d, J o lmc cur0 st c ->
+  safe (fun r => J o lmc cur0 (snd r) (fst r)) (open_new_blocks_loop fuel o st c line am ml d).
+Proof.
+  intros Tb Dl. induction fuel as [|f IH]; intros st c ml d Jc; cbn [open_new_blocks_loop]; [exact I|].
+  eapply sb_get; [eapply J_has; exact Jc|]. intros n G.
+  destruct (is_code_or_html n); [cbn; exact Jc|].
+  pose proof (open_new_blocks_step_spec o lmc cur0 st c line am ml (S d) Tb Dl Jc) as S.
+  apply sbind; [eapply safe_nb; exact S|]. intros [[go c1] s1] E. pose proof (safe_ok _ _ _ S E) as J1.
+  cbn [HJ fst snd] in J1. destruct go; [now apply IH | cbn; exact J1].
+Qed.
+
+Lemma open_new_blocks_spec o st c line am : bo_table o = false -> bo_description_lists o = false ->
+  W o st -> has st c -> has st (ps_current st) ->
+  safe (fun r => J o c (ps_current st) (snd r) (fst r)) (open_new_blocks o st c line am).
+Proof.
+  intros Tb Dl V Hc Hcur. unfold open_new_blocks.
+  eapply sb_get; [exact Hcur|]. intros n G. apply open_new_blocks_loop_spec; [exact Tb | exact Dl|].
+  split; [exact V|]. split; [exact Hc|]. split; [reflexivity|]. split; [reflexivity | now right].
+Qed.
+
+(* ================================================================== add_text_to_container *)
+Lemma add_line_nb st id line : has st id -> nb (add_line st id line).
+Proof. intro H. unfold add_line. nbgo. Qed.
+
+Lemma add_line_post o st id line st' : add_line st id line = Ok st' -> W o st -> W o st' /\ same st st'.
+Proof.
+  intros H V. split; [Wgo V|]. unfold add_line in H.
+  mstep H. rename E into G. mon H; monall;
+  match goal with M : modify_info st id (fun _ => ?j) = Ok ?s1 |- same st (st_cur ?s1 _) =>
+    assert (S : same st s1) by (eapply (mi_const_same st id a j s1 G M); reflexivity);
+    destruct S as [S1 S2 S3 S4]; split; [exact S1 | exact S2 | exact S3 | exact S4] end.
+Qed.
+
+Lemma add_line_spec o st id line : W o st -> has st id -> safe (fun s' => W o s' /\ same st s') (add_line st id line).
+Proof. intros V H. apply nb_safe; [now apply add_line_nb|]. intros s' E. eapply add_line_post; eassumption. Qed.
+
+Lemma clear_llb_up_spec o : forall fuel st id, W o st ->
+  safe (fun s' => W o s' /\ same st s') (clear_llb_up fuel st id).
+Proof.
+  induction fuel as [|f IH]; intros st id V; cbn [clear_llb_up]; [exact I|].
+  destruct (parent_of id (ps_root st)) as [p|] eqn:P; [|cbn; split; [exact V | apply same_refl]].
+  pose proof (parent_has _ _ _ P) as Hp.
+  apply sbind; [now apply nb_modify_info|]. intros s1 M.
+  assert (Hg : forall i, bi_id (set_llb false i) = bi_id i /\ bi_val (set_llb false i) = bi_val i) by (intro; split; reflexivity).
+  pose proof (modify_info_set_W _ _ _ _ _ M Hg V) as V1. pose proof (modify_info_set_same _ _ _ _ M Hg) as S1.
+  eapply safe_weaken; [apply IH; exact V1|]. intros s' _ [V' S']. split; [exact V' | eapply same_trans; eassumption].
+Qed.
+
+Lemma finalize_up_to_spec o target site : (bad site = false \/ target = root_id) ->
+  forall fuel st, W o st -> (ps_current st = target \/ has st (ps_current st)) ->
+  safe (fun s' => W o s' /\ ps_current s' = target /\
+                  (forall x, has st x -> (x = ps_current st /\ ispara st x = true /\ x <> target) \/ has s' x))
+       (finalize_up_to fuel o st target site).
+Proof.
+  intro Hs. induction fuel as [|f IH]; intros st V Hc; cbn [finalize_up_to]; [exact I|].
+  destruct (Nat.eqb (ps_current st) target) eqn:Eq.
+  { apply Nat.eqb_eq in Eq. cbn. split; [exact V|]. split; [exact Eq | intros; now right]. }
+  apply Nat.eqb_neq in Eq. destruct Hc as [Hc|Hc]; [contradiction|].
+  unfold unwrap_parent. destruct (finalize o st (ps_current st)) as [[po s1]| |] eqn:F; cbn [bind fst snd].
+  2:{ pose proof (finalize_nb o st _ Hc) as N. rewrite F in N. exact N. }
+  2:{ exact I. }
+  destruct (finalize_post _ _ _ _ _ F V) as [V1 (Ep & L & Sm)].
+  destruct po as [p|]; cbn [bind fst snd].
+  2:{ destruct Hs as [Hs|Hs]; [exact Hs|]. exfalso. subst target.
+      destruct (parent_some_st _ _ _ V Hc Eq) as [p P]. congruence. }
+  destruct (finalize_keeps_parent _ _ _ _ _ F V) as (Hp & Pp & Np).
+  assert (S : safe (fun s' => W o s' /\ ps_current s' = target /\
+                    (forall x, has (st_current s1 p) x -> (x = p /\ ispara (st_current s1 p) x = true /\ x <> target) \/ has s' x))
+                   (finalize_up_to f o (st_current s1 p) target site)).
+  { apply IH; [exact V1 | right; exact Hp]. }
+  eapply safe_weaken; [exact S|]. intros s' _ (V' & C' & K'). split; [exact V'|]. split; [exact C'|].
+  intros x Hx. destruct (Nat.eq_dec x (ps_current st)) as [->|Nx].
+  - destruct (ispara st (ps_current st)) eqn:Pc; [left; auto|]. right.
+    assert (H1 : has (st_current s1 p) (ps_current st)) by (apply (same_has _ _ _ (Sm eq_refl)); exact Hx).
+    destruct (K' _ H1) as [(E1 & E2 & _)|K2]; [|exact K2]. subst p. change (ispara s1 (ps_current st) = true) in E2. congruence.
+  - right. assert (H1 : has (st_current s1 p) x) by (apply has_cnt; change (1 <= cnt x (ids (ps_root s1))); rewrite (ls_cnt _ _ _ L x Nx); now apply has_cnt).
+    destruct (K' _ H1) as [(E1 & E2 & _)|K2]; [|exact K2]. subst p. change (ispara s1 x = true) in E2. congruence.
+Qed.
+
+Lemma not_root_of_value o st c n : W o st -> get st c = Ok n -> bval n <> Document -> c <> root_id.
+Proof.
+  intros V G B E. subst c. destruct V as ((( D & _) & _) & _ & R). unfold R0 in R. unfold get in G.
+  rewrite <- R in G. rewrite find_root_id in G. inversion G; subst. contradiction.
+Qed.
+
+Definition ATC (o : bopts) (r : nat * pstate) : Prop := W o (snd r) /\ has (snd r) (fst r).
+
+Lemma atc_add_line o st c line : W o st -> has st c ->
+  safe (ATC o) (do st1 <- add_line st c line; Ok (c, st1)).
+Proof.
+  intros V H. pose proof (add_line_spec o st c line V H) as S.
+  apply sbind; [eapply safe_nb; exact S|]. intros s1 E. destruct (safe_ok _ _ _ S E) as [V1 S1].
+  split; [exact V1 | apply (same_has _ _ _ S1); exact H].
+Qed.
+
+Lemma atc_ok o s c : W o s -> has s c -> safe (ATC o) (Ok (c, s)).
+Proof. intros V H. split; assumption. Qed.
+
+Ltac atc_other V2 Hc2 :=
+  let line1 := fresh "line1" in let count := fresh "count" in
+  let sa := fresh "sa" in let Ea := fresh "Ea" in let Ta := fresh "Ta" in
+  let sb := fresh "sb" in let Eb := fresh "Eb" in let Tb := fresh "Tb" in
+  let pp := fresh "pp" in let Aa := fresh "Aa" in let Va := fresh "Va" in let Ga := fresh "Ga" in
+  match goal with |- safe _ (if blank ?s then _ else _) => destruct (blank s) end;
+  [ apply atc_ok; [exact V2 | exact Hc2] | ];
+  match goal with |- safe _ (if ?b then _ else _) => destruct b end;
+  [ apply sbind; [nbgo|]; intros line1 _; apply sbind; [auto with nb|]; intros count _;
+    match goal with |- safe _ (if ?b then _ else _) => destruct b end; [|apply atc_ok; [exact V2 | exact Hc2]];
+    apply sbind; [auto with nb|]; intros sa Ea;
+    pose proof (adv_eqtree _ _ _ _ _ Ea) as Ta;
+    apply atc_add_line; [eapply W_eqtree; eassumption | eapply has_eqtree; eassumption]
+  | apply sbind; [unfold add_child; now apply add_child_gen_nb|]; intros [pp sa] Aa;
+    pose proof (add_child_W _ _ _ _ _ _ _ Aa V2 eq_refl eq_refl eq_refl) as Va;
+    unfold add_child in Aa;
+    destruct (add_child_gen_post _ _ _ _ _ _ _ _ Aa V2 Va Hc2 (fun i => eq_refl)) as [(Ga & _) _];
+    apply sbind; [auto with nb|]; intros count _;
+    apply sbind; [auto with nb|]; intros sb Eb;
+    pose proof (adv_eqtree _ _ _ _ _ Eb) as Tb;
+    apply atc_add_line; [eapply W_eqtree; eassumption | eapply has_eqtree; eassumption] ].
+
+Lemma add_text_to_container_spec o lmc cur0 st c line : J o lmc cur0 st c ->
+  safe (fun s' => W o s' /\ has s' (ps_current s')) (add_text_to_container o st c lmc line).
+Proof.
+  intro Jc. unfold add_text_to_container.
+  eapply sb_eq; [exact Jc | auto with nb | intros s1 E; eapply ffn_eqtree; exact E |]. intros s0 J0.
+  eapply sb_get; [eapply J_has; exact J0|]. intros cn G.
+  (* last_line_blank of the last child *)
+  assert (S1 : forall K, (forall s1, J o lmc cur0 s1 c -> blank s1 = blank s0 -> ps_line_number s1 = ps_line_number s0 ->
+                                     safe (fun s' => W o s' /\ has s' (ps_current s')) (K s1)) ->
+               safe (fun s' => W o s' /\ has s' (ps_current s'))
+                 (bind (if blank s0 then match last_opt (bkids cn) with
+                                        | Some lc => modify_info s0 (bid lc) (set_llb true)
+                                        | None => Ok s0 end else Ok s0) K)).
+  { intros K HK. destruct (blank s0) eqn:Bl; [|cbn [bind]; now apply HK].
+    destruct (last_opt (bkids cn)) as [lc|] eqn:L; [|cbn [bind]; now apply HK].
+    apply last_opt_in in L. pose proof (kid_has _ _ _ _ G L) as Hl.
+    apply sbind; [now apply nb_modify_info|]. intros s1 M.
+    assert (Hg : forall i, bi_id (set_llb true i) = bi_id i /\ bi_val (set_llb true i) = bi_val i) by (intro; split; reflexivity).
+    apply HK.
+    - eapply J_same; [eapply modify_info_set_same; eassumption | eapply modify_info_set_W; [exact M | exact Hg | apply J0] | exact J0].
+    - unfold modify_info, modify in M. destruct (upd _ _ _); [|discriminate M]. now inversion M.
+    - unfold modify_info, modify in M. destruct (upd _ _ _); [|discriminate M]. now inversion M. }
+  apply S1. clear S1. intros s1 J1 _ _.
+  eapply sb_mi; [exact J1 | eapply J_has; exact J1 | intro; split; reflexivity |]. intros s2 J2.
+  pose proof J2 as (V2 & Hc2 & Pc2 & Cc2 & Kc2).
+  pose proof (clear_llb_up_spec o (S (ps_next s2)) s2 c V2) as S3.
+  apply sbind; [eapply safe_nb; exact S3|]. intros s3 E3. destruct (safe_ok _ _ _ S3 E3) as [V3 Sm3].
+  pose proof (J_same _ _ _ _ _ _ Sm3 V3 J2) as J3. clear S3.
+  pose proof J3 as (_ & Hc3 & Pc3 & Cc3 & Kc3).
+  (* lazy continuation *)
+  match goal with |- safe _ (bind ?r _) =>
+    assert (N : nb r /\ forall lz, r = Ok lz -> lz = true -> ps_current s3 <> lmc /\ has s3 (ps_current s3)) end.
+  { match goal with |- nb (if ?cond then _ else _) /\ _ => destruct cond eqn:Cd end.
+    - assert (Ne : ps_current s3 <> lmc).
+      { apply andb_true_iff in Cd. destruct Cd as [Cd _]. apply andb_true_iff in Cd. destruct Cd as [Cd _].
+        apply andb_true_iff in Cd. destruct Cd as [Cd _]. apply negb_true_iff in Cd. now apply Nat.eqb_neq in Cd. }
+      assert (Hcur : has s3 (ps_current s3)) by (destruct Kc3 as [K|K]; [congruence | now rewrite Cc3]).
+      split; [apply nb_bind; [now apply nb_get | intros; exact I] | auto].
+    - split; [exact I | intros lz E; inversion E; discriminate]. }
+  apply sbind; [exact (proj1 N)|]. intros lz El. pose proof (proj2 N lz El) as Lz. clear N El.
+  destruct lz.
+  { destruct (Lz eq_refl) as [Ne Hcur].
+    pose proof (add_line_spec o s3 _ line V3 Hcur) as S. eapply safe_weaken; [exact S|].
+    intros s' _ [V' Sm']. split; [exact V'|]. rewrite (sm_cur _ _ Sm'). apply (same_has _ _ _ Sm'). exact Hcur. }
+  clear Lz.
+  assert (Pre : ps_current s3 = lmc \/ has s3 (ps_current s3)) by (rewrite Cc3; exact Kc3).
+  pose proof (finalize_up_to_spec o lmc "mod.rs:add_text_to_container:self.finalize(self.current).unwrap()"
+                (or_introl eq_refl) (S (ps_next s3)) s3 V3 Pre) as S4.
+  apply sbind; [eapply safe_nb; exact S4|]. intros s4 E4. destruct (safe_ok _ _ _ S4 E4) as (V4 & C4 & K4). clear S4.
+  assert (Hc4 : has s4 c).
+  { destruct (K4 _ Hc3) as [(Q1 & Q2 & Q3)|H4]; [|exact H4]. exfalso. apply Q3. now apply Pc3. }
+  eapply sb_get; [exact Hc4|]. intros cn4 G4.
+  match goal with |- safe _ (bind ?r _) => assert (SR : safe (ATC o) r) end.
+  { destruct (bval cn4) eqn:Bv; try (atc_other V4 Hc4).
+    - now apply atc_add_line.
+    - pose proof (add_line_spec o s4 c line V4 Hc4) as S.
+      apply sbind; [eapply safe_nb; exact S|]. intros s5 E5. destruct (safe_ok _ _ _ S E5) as [V5 Sm5].
+      pose proof (proj2 (same_has _ _ c Sm5) Hc4) as Hc5.
+      apply sbind; [auto with nb|]. intros rest _.
+      destruct (html_end_condition _ rest); [|apply atc_ok; [exact V5 | exact Hc5]].
+      assert (Nr : c <> root_id) by (eapply not_root_of_value; [exact V4 | exact G4 | rewrite Bv; discriminate]).
+      pose proof (finalize_unwrap_spec "mod.rs:add_text_to_container:self.finalize(container).unwrap()" o s5 c V5 Hc5 Nr) as S6.
+      eapply safe_weaken; [exact S6|]. intros [p s6] _ (A & B & _). split; [exact A | exact B]. }
+  apply sbind; [eapply safe_nb; exact SR|]. intros [c5 s5] E5. destruct (safe_ok _ _ _ SR E5) as [V5 H5].
+  cbn [fst snd] in *. split; [exact V5 | exact H5].
+Qed.
